@@ -82,6 +82,9 @@ func cmdRound(p *lang.Process) error {
 		}
 
 	default:
+		if int(precision) == 0 {
+			return fmt.Errorf("invalid precision '%s': expecting a whole number to round to a multiple of, or a decimal such as 0.01 to round to decimal places", params[1])
+		}
 		switch {
 		case roundDown:
 			return roundWriter(p, roundDownMultiple(int(value), int(precision)))
